@@ -9,3 +9,7 @@ pub assume_specification<T: std::default::Default>[ std::mem::take ](x: &mut T) 
 // [T]::contains for element types whose == is structural (used with &String): membership
 pub assume_specification<T: core::cmp::PartialEq>[ <[T]>::contains ](s: &[T], x: &T) -> (r: bool)
     ensures r == exists|i: int| 0 <= i < s@.len() && #[trigger] s@[i] == *x;
+
+// <String as AsRef<str>>::as_ref: the same text
+pub assume_specification[ <std::string::String as std::convert::AsRef<str>>::as_ref ](s: &std::string::String) -> (r: &str)
+    ensures r@ == s@;
